@@ -185,6 +185,8 @@ impl EventLoop {
 
         let inflight_full = self.state.inflight >= self.state.max_outgoing_inflight;
         let collision = self.state.collision.is_some();
+        // a broker that stops reading must not keep a flush (and with it the keep-alive) waiting for ever
+        let network_timeout = Duration::from_secs(self.options.connection_timeout());
 
         // Read buffered events from previous polls before calling a new poll
         if let Some(event) = self.state.events.pop_front() {
@@ -235,7 +237,7 @@ impl EventLoop {
                     if let Some(outgoing) = self.state.handle_outgoing_packet(request)? {
                         network.write(outgoing).await?;
                     }
-                    network.flush().await?;
+                    time::timeout(network_timeout, network.flush()).await??;
                     Ok(self.state.events.pop_front().unwrap())
                 }
                 Err(_) => Err(ConnectionError::RequestsDone),
@@ -244,9 +246,9 @@ impl EventLoop {
             o = network.readb(&mut self.state) => {
                 // flush all the acks and return first incoming packet. The acks of the packets
                 // handled before a later one of the batch failed are announced: they go out too
-                let flushed = network.flush().await;
+                let flushed = time::timeout(network_timeout, network.flush()).await;
                 o?;
-                flushed?;
+                flushed??;
                 Ok(self.state.events.pop_front().unwrap())
             },
             // We generate pings irrespective of network activity. This keeps the ping logic
@@ -259,7 +261,7 @@ impl EventLoop {
                 if let Some(outgoing) = self.state.handle_outgoing_packet(Request::PingReq)? {
                     network.write(outgoing).await?;
                 }
-                network.flush().await?;
+                time::timeout(network_timeout, network.flush()).await??;
                 Ok(self.state.events.pop_front().unwrap())
             }
         }
